@@ -1,6 +1,7 @@
 mod exec;
 mod frames;
 mod props;
+mod real_client;
 mod runner;
 mod server_world;
 mod tape;
